@@ -842,17 +842,33 @@ class Node:
         """
         if with_clones:
             for c in self.get_clones():  # Excluding self
+                if c._tree is None:
+                    continue  # was already removed as descendant of another clone
                 c.remove(keep_children=keep_children, with_clones=False)
+            if self._tree is None:
+                return  # was already removed as descendant of another clone
             assert not self.is_clone()
 
-        if keep_children:
-            for c in self.children.copy():
-                c.move_to(self._parent, before=self)
+        pc = self._parent._children
+        # `list.remove()` checks for equality ('=='), not identity
+        idx = self._index_in_parent()
+
+        if keep_children and self._children:
+            # Refuse before moving anything if a child would collide with one
+            # of its new siblings
+            sibling_ids = {n._data_id for n in pc if n is not self}  # type: ignore
+            for c in self._children:
+                if c._data_id in sibling_ids:
+                    raise UniqueConstraintError("Node.data already exists in parent")
+            # Replace this node by its children
+            for c in self._children:
+                c._parent = self._parent
+            pc[idx : idx + 1] = self._children  # type: ignore
+            self._children = None
         else:
             self.remove_children()
+            pc.pop(idx)  # type: ignore
 
-        pc = self._parent._children
-        pc.remove(self)  # type: ignore
         if not pc:  # store None instead of `[]`
             pc = self._parent._children = None
 
